@@ -1,3 +1,268 @@
+"""V-extract / V-real / V-data back end.
+
+A unit is a template (units/v/<name>.rs) with placeholders
+    /*@FN <id>*/      replaced by a function extracted verbatim from /repo (working tree),
+                      its signature replaced by the stated `new_sig`, the listed regex
+                      rewrites applied to the body, contract spliced between signature
+                      and body, loop specs spliced after the n-th loop header;
+    /*@DATA <id>*/    replaced by the output of a generator in vx/vdata.py (tables read
+                      from config.json).
+Contract / invariant lines end in `// OBL:<clause>`; a Verus error whose primary span
+is on such a line is a failure of that named obligation.  Any other error inside an
+extracted function is that function's `body_safety` obligation (index, overflow,
+callee precondition, termination).  Errors in scaffold-only code, rlimit, timeouts,
+unsupported constructs are undecided (exit 2)."""
+import json, os, re, time
+from . import rustscan
+from .common import *
+
+GENERIC_REWRITES = [
+    (r'(?m)^[ \t]*log::(?:debug|info|warn|error|trace)!\((?:[^;]|\n)*?\);[ \t]*\n', '', 'R1 drop log::*! statement'),
+]
+
+
+def normsig(s):
+    return re.sub(r'\s+', ' ', s).strip()
+
+
 class VUnit:
     def __init__(self, name):
-        raise NotImplementedError
+        self.name = name
+        self.cfg = load_toml(os.path.join(UNITS, name + '.toml'))
+        assert self.cfg.get('backend') == 'verus', name
+        self.template = read(os.path.join(UNITS, self.cfg['template']))
+
+    def generate(self):
+        prov, fired = [], []
+        text = self.template
+        fn_ids = []
+        for ex in self.cfg.get('extract', []):
+            src = read(os.path.join(REPO, ex['file']))
+            it = rustscan.find_fn(src, ex['fn'], ex.get('impl'))
+            if 'orig_sig' in ex and normsig(it.signature) != normsig(ex['orig_sig']):
+                raise rustscan.LostAnchor(f'{ex["file"]}: signature of {ex["fn"]} changed: `{normsig(it.signature)}` (unit expects `{normsig(ex["orig_sig"])}`)')
+            body = src[it.body_open:it.body_close + 1]
+            orig_body = body
+            for pat, rep, why in GENERIC_REWRITES:
+                body, n = re.subn(pat, rep, body)
+                if n:
+                    fired.append(f'{ex["id"]}: {why} x{n}')
+            for rw in ex.get('rewrites', []):
+                pat, rep = rw[0], rw[1]
+                body, n = re.subn(pat, rep, body, flags=re.S)
+                minimum = rw[3] if len(rw) > 3 else 0
+                if n < minimum:
+                    raise rustscan.LostAnchor(f'{ex["id"]}: rewrite /{pat}/ expected >= {minimum} matches, found {n}')
+                if n:
+                    fired.append(f'{ex["id"]}: {rw[2] if len(rw) > 2 else "rewrite"}: /{pat}/ -> `{rep}` x{n}')
+            # loop specs: keyed by ordinal
+            for lp in sorted(ex.get('loop', []), key=lambda l: -l['n']):
+                fake = rustscan.Item(body, 0, 0, 0, len(body) - 1)
+                kw, brace = rustscan.nth_loop(body, fake, lp['n'])
+                body = body[:brace] + '\n' + lp['spec'].rstrip() + '\n' + ' ' * 12 + body[brace:]
+            for ins in ex.get('insert_after', []):
+                k = body.find(ins['anchor'])
+                if k < 0:
+                    raise rustscan.LostAnchor(f'{ex["id"]}: anchor `{ins["anchor"]}` for ghost insertion not found')
+                k = body.find('\n', k)
+                body = body[:k + 1] + ins['text'].rstrip() + '\n' + body[k + 1:]
+            fn_text = ex['new_sig'].rstrip() + '\n' + ex.get('contract', '').rstrip() + '\n' + body
+            marker = f'/*@FN {ex["id"]}*/'
+            if marker not in text:
+                raise Undecided(f'{self.name}: marker {marker} not in template')
+            text = text.replace(marker, f'/*@BEGIN {ex["id"]}*/\n' + fn_text + f'\n/*@END {ex["id"]}*/')
+            fn_ids.append(ex['id'])
+            prov.append({'kind': 'verus-extract', 'id': ex['id'], 'file': ex['file'], 'fn': ex['fn'], 'impl': ex.get('impl', ''),
+                         'lines': list(it.line_span()), 'sha256_of_source_item': sha256(it.text), 'signature_in_repo': normsig(it.signature),
+                         'signature_verified': normsig(ex['new_sig'])})
+        for dt in self.cfg.get('data', []):
+            from . import vdata
+            gen = getattr(vdata, dt['generator'])
+            out, p = gen(dt)
+            marker = f'/*@DATA {dt["id"]}*/'
+            if marker not in text:
+                raise Undecided(f'{self.name}: marker {marker} not in template')
+            text = text.replace(marker, out)
+            prov.extend(p)
+        for chk in self.cfg.get('source_fact', []):
+            src = read(os.path.join(REPO, chk['file']))
+            hay = rustscan.mask(src) if chk.get('masked', True) else src
+            n = len(re.findall(chk['regex'], hay))
+            if 'within' in chk:
+                spans = []
+                for w in chk['within']:
+                    it = rustscan.find_fn(src, w['fn'], w.get('impl'))
+                    spans.append((it.body_open, it.body_close))
+                outside = [m.start() for m in re.finditer(chk['regex'], hay) if not any(a <= m.start() <= b for a, b in spans)]
+                if outside:
+                    raise rustscan.LostAnchor(f'{chk["file"]}: source fact `{chk["why"]}`: /{chk["regex"]}/ also occurs outside the extracted functions (line {src.count(chr(10), 0, outside[0]) + 1})')
+            elif n != chk['count']:
+                raise rustscan.LostAnchor(f'{chk["file"]}: source fact `{chk["why"]}`: /{chk["regex"]}/ occurs {n}x, unit expects {chk["count"]}')
+            prov.append({'kind': 'source-fact', 'file': chk['file'], 'regex': chk['regex'], 'count': n, 'why': chk['why']})
+        return text, prov, fired, fn_ids
+
+    def run(self, keep=False):
+        text, prov, fired, fn_ids = self.generate()
+        d = make_scratch('v.' + self.name)
+        path = os.path.join(d, re.sub(r'\W', '_', self.name) + '.rs')
+        write(path, text)
+        cmd = ['verus', path, '--output-json', '--time', '--error-format=json'] + self.cfg.get('args', [])
+        try:
+            rc, out, wall, rss, reason = run_split(cmd, cwd=d, timeout=self.cfg.get('timeout', 600))
+        finally:
+            if not keep:
+                rm_scratch(d)
+        stdout, stderr = out
+        lines = text.split('\n')
+        # line -> fn id
+        owner = {}
+        cur = None
+        for i, l in enumerate(lines, 1):
+            m = re.search(r'/\*@BEGIN (.*?)\*/', l)
+            if m:
+                cur = m.group(1)
+            owner[i] = cur
+            if re.search(r'/\*@END ', l):
+                cur = None
+        obl_at = {}
+        for i, l in enumerate(lines, 1):
+            m = re.search(r'//\s*OBL:([\w.\-]+)', l)
+            if m:
+                obl_at[i] = m.group(1)
+        canary_lines = {i for i, l in enumerate(lines, 1) if '// CANARY' in l}
+        # named obligations: all OBL tags (owner may be None for lemma-level clauses)
+        obligations = {}
+        for i, name in obl_at.items():
+            o = owner.get(i) or self.lemma_owner(lines, i)
+            obligations[f'{self.name}/{o}/{name}'] = 'SUCCESS'
+        for fid in fn_ids:
+            obligations[f'{self.name}/{fid}/body_safety'] = 'SUCCESS'
+        undecided, details = [], {}
+        summary = None
+        try:
+            summary = json.loads(stdout[stdout.index('{'):]) if '{' in stdout else None
+        except Exception:
+            summary = None
+        if reason:
+            undecided.append(f'verus killed: {reason}')
+        diags = []
+        for l in stderr.split('\n'):
+            l = l.strip()
+            if l.startswith('{') and '"$message_type"' in l:
+                try:
+                    diags.append(json.loads(l))
+                except Exception:
+                    pass
+        canary_seen = False
+        for dg in diags:
+            if dg.get('level') != 'error':
+                continue
+            msg = dg.get('message', '')
+            if msg.startswith('aborting due to'):
+                continue
+            prim = [s for s in dg.get('spans', []) if s.get('is_primary')]
+            allspans = dg.get('spans', [])
+            pl = prim[0]['line_start'] if prim else None
+            span_lines = [s['line_start'] for s in allspans]
+            if any(sl in canary_lines for sl in span_lines) or (pl and self.in_canary(lines, pl)):
+                canary_seen = True
+                continue
+            if re.search(r'rlimit|resource limit|timed? ?out|not supported|unsupported|The verifier does not yet support', msg, re.I):
+                undecided.append(f'verus: {msg} @ line {pl}')
+                continue
+            named = [obl_at[sl] for sl in span_lines if sl in obl_at]
+            fn_owner = None
+            for sl in ([pl] if pl else []) + span_lines:
+                if owner.get(sl):
+                    fn_owner = owner[sl]
+                    break
+            rendered = dg.get('rendered', msg)
+            if named:
+                tagline = [sl for sl in span_lines if sl in obl_at][0]
+                o = owner.get(tagline) or fn_owner or self.lemma_owner(lines, tagline)
+                oid = f'{self.name}/{o}/{named[0]}'
+                obligations[oid] = 'FAILURE'
+                details[oid] = rendered
+            elif fn_owner:
+                oid = f'{self.name}/{fn_owner}/body_safety'
+                obligations[oid] = 'FAILURE'
+                details[oid] = rendered
+            elif summary is None or dg.get('code') or 'error[E' in rendered:
+                undecided.append(f'verus front-end error (not a proof failure): {rendered[:1500]}')
+            else:
+                undecided.append(f'verus error in scaffold-only code (brittle proof, not a code violation): {rendered[:1500]}')
+        if canary_lines and not canary_seen and not undecided:
+            undecided.append('vacuity guard: canary lemma with a false ensures was not rejected')
+        verified = errors = None
+        smt_ms = 0
+        if summary:
+            vr = summary.get('verification-results', {})
+            verified, errors = vr.get('verified'), vr.get('errors')
+            smt_ms = summary.get('times-ms', {}).get('smt', {}).get('total', 0)
+            if vr.get('encountered-vir-error'):
+                undecided.append('verus: VIR error (construct outside the supported subset)')
+        else:
+            if not undecided:
+                undecided.append('verus produced no JSON summary: ' + (stderr[-1500:] or stdout[-500:]))
+        exp = self.cfg.get('expect_verified')
+        if exp is not None and verified is not None and not any(s == 'FAILURE' for s in obligations.values()) and verified != exp and not undecided:
+            undecided.append(f'vacuity guard: verus verified {verified} items, unit file records {exp}')
+        assumptions = scan_assumptions(text, self.name)
+        obl_list = [{'id': k, 'clause': k.rsplit('/', 1)[1], 'status': v, 'detail': details.get(k)} for k, v in sorted(obligations.items())]
+        report = {'unit': self.name, 'backend': 'verus/z3', 'wall_s': round(wall, 2), 'verified_items': verified, 'errors': errors,
+                  'smt_ms': smt_ms, 'rewrites_fired': fired, 'cmd': ' '.join(['verus', '<generated>/' + os.path.basename(path)] + cmd[2:]),
+                  'generated_file_sha256': sha256(text), 'status': 'FAILED' if any(o['status'] == 'FAILURE' for o in obl_list) else ('undecided' if undecided else 'verified')}
+        return {'cmd': report['cmd'], 'report': report, 'obligations': obl_list, 'undecided': undecided, 'provenance': prov,
+                'assumptions': assumptions, 'solver_s': smt_ms / 1000.0, 'out': stderr_render(diags) + '\n' + json.dumps(summary.get('verification-results') if summary else None),
+                'file_text': text}
+
+    @staticmethod
+    def lemma_owner(lines, i):
+        """name of the enclosing fn of line i in scaffold code"""
+        for k in range(i - 1, -1, -1):
+            m = re.match(r'\s*(?:pub\s+)?(?:proof\s+|spec\s+|exec\s+)?fn\s+(\w+)', lines[k])
+            if m:
+                return m.group(1)
+        return 'scaffold'
+
+    @staticmethod
+    def in_canary(lines, i):
+        for k in range(i - 1, max(0, i - 12), -1):
+            if '// CANARY' in lines[k]:
+                return True
+            if re.match(r'\s*(?:pub\s+)?(?:proof\s+|spec\s+)?fn\s', lines[k]) and k != i - 1:
+                return '// CANARY' in lines[k]
+        return False
+
+
+def stderr_render(diags):
+    return '\n'.join(d.get('rendered', d.get('message', '')) for d in diags if d.get('level') == 'error')
+
+
+def scan_assumptions(text, unit):
+    """mechanical scan of the generated file for everything that is assumed, not proved"""
+    out = []
+    lines = text.split('\n')
+    for i, l in enumerate(lines):
+        if 'external_body' in l or 'assume_specification' in l or re.search(r'\bassume\s*\(', l) or re.search(r'\badmit\s*\(', l) or 'uninterp' in l or 'external_type_specification' in l:
+            # the item named on this or the next lines
+            nm = ''
+            for k in range(i, min(i + 4, len(lines))):
+                m = re.search(r'\b(?:fn|struct)\s+(\w+)', lines[k])
+                if m:
+                    nm = m.group(1)
+                    break
+            kind = 'external_body' if 'external_body' in l else ('uninterp spec fn' if 'uninterp' in l else ('assume' if 'assume' in l else 'admit/assume_specification'))
+            out.append(f'verus unit {unit}: {kind} `{nm}` is an assumed contract (scaffold), not proved')
+    return sorted(set(out))
+
+
+def run_split(cmd, cwd=None, timeout=None):
+    import subprocess, threading
+    e = dict(os.environ)
+    t0 = time.time()
+    try:
+        p = subprocess.run(cmd, cwd=cwd, env=e, capture_output=True, text=True, timeout=timeout)
+        return p.returncode, (p.stdout, p.stderr), time.time() - t0, 0, None
+    except subprocess.TimeoutExpired as ex:
+        return None, (ex.stdout or '', ex.stderr or ''), time.time() - t0, 0, f'timeout>{timeout}s'
